@@ -3,9 +3,77 @@ CLAIM = ("Static-Huffman family (-lh4/5/6/7/x-, -lk7-), compositional: bit-reade
          "block accounting, template parameters of the six instantiations.")
 ASSUMPTIONS = ["composition of the parts follows the code's own call structure (argument in DESIGN.md 4.1)",
                "table readers and command decoding are run on the real template text, instantiated by the harness at small NUM_CODES / HISTORY_BITS where stated"]
+BITS = {"lib/bit_stream_reader.c": ["peek_bits", "read_bits", "read_bit"]}
+SPECSTUB = "peek_bits/read_bits/read_bit: the next n bits of a symbolic bit string, MSB first, -1 when fewer remain (refinement proved by bits.refine for n <= 25; the stub asserts n <= 25)"
+
+
+def rn(extra):
+    d = dict(BITS)
+    for k, v in extra.items():
+        d[k] = d.get(k, []) + v
+    return d
+
+
+def tree_h(tag, ns, ml, elem8=False, comb=False, tier="both", timeout=300):
+    defs = ["NS=%d" % ns, "ML=%d" % ml] + (["ELEM8"] if elem8 else []) + (["COMB"] if comb else [])
+    return dict(name="tree.%s" % tag, src="C01/tree.c", defines=defs, rename_defs=BITS, unwind=max(2 * ns, ml) + 2,
+                units=["lib/tree_decode.c:build_tree,expand_queue,add_codes_with_length,read_next_entry,read_from_tree,init_tree"],
+                timeout=timeout, tier=tier, mem_gb=4, stubs=[SPECSTUB],
+                bounds="%s: %d symbols, lengths 0..%d, Kraft-complete%s, arbitrary symbol s; TreeElement %s; tree array 2*%d entries"
+                       % ("comb (permutation of 1..%d,%d)" % (ml, ml) if comb else "all length arrays", ns, ml,
+                          "", "uint8_t (pm2)" if elem8 else "uint16_t (lh_new)", ns))
+
+
+RFT = {"lib/tree_decode.c": ["read_from_tree"]}
+RFTSTUB = "read_from_tree: yields the harness' arbitrary command code (< NUM_CODES) for the code tree and an arbitrary offset symbol for the offset tree, consuming no bits (tree walk vs canonical codewords: tree.*)"
+
+
+def cmd_h(tag, defs, maxlen, flags=(), tier="both", timeout=300, mem_gb=4, bounds=""):
+    return dict(name="cmd." + tag, src="C01/cmd.c", defines=defs, rename_defs=rn(RFT),
+                unwindset={"copy_from_history.0": maxlen + 1, "bs_ref.0": 16, "harness.0": 5, "harness.1": 65, "harness.2": maxlen + 1, "harness.3": 65},
+                flags=list(flags), tier=tier, timeout=timeout, mem_gb=mem_gb, bounds=bounds, stubs=[SPECSTUB, RFTSTUB],
+                units=["lib/lh_new_decoder.c:lha_lh_new_read,read_code,copy_from_history,read_offset_code,output_byte"
+                       + (",lhark_decode_copy_count,lhark_read_offset_code" if "LK" in defs or "REAL_LK7" in defs else "")])
+
+
 HARNESSES = [
     dict(name="bits.refine", src="C01/bits.c", defines=["NMAX=25"], unwind=6, unwindset={"ref_bits.0": 34, "cb_read.0": 5, "harness.0": 7, "harness.1": 5},
          units=["lib/bit_stream_reader.c"], timeout=600, mem_gb=4,
          bounds="arbitrary reader state over an 6-byte symbolic stream, any bit position, any request 0..25 bits, arbitrary short reads",
          stubs=["cb_read: symbolic stream with short reads"]),
+    # ---- H01.tree
+    tree_h("4x4.u16", 4, 4),
+    tree_h("4x4.u8", 4, 4, elem8=True),
+    tree_h("6x5.u16", 6, 5),
+    tree_h("6x5.u8", 6, 5, elem8=True),
+    tree_h("8x6.u16", 8, 6, tier="thorough", timeout=1800),
+    tree_h("10x6.u16", 10, 6, tier="thorough", timeout=1800),
+    tree_h("8x6.u8", 8, 6, elem8=True, tier="thorough", timeout=1800),
+    tree_h("comb17.u16", 17, 16, comb=True, tier="thorough", timeout=1800),
+    tree_h("comb8.u8", 8, 7, elem8=True, comb=True, tier="thorough", timeout=1800),
+    dict(name="tree.single.u16", src="C01/tree.c", entry="harness_single", defines=["NS=510"], rename_defs=BITS, unwind=2, unwindset={"init_tree.0": 1022, "harness_single.0": 5},
+         units=["lib/tree_decode.c:set_tree_single,read_from_tree,init_tree"], timeout=120, stubs=[SPECSTUB],
+         bounds="any symbol < 2^15, tree of 1020 entries"),
+    dict(name="tree.single.u8", src="C01/tree.c", entry="harness_single", defines=["NS=32", "ELEM8"], rename_defs=BITS, unwind=2, unwindset={"init_tree.0": 66, "harness_single.0": 5},
+         units=["lib/tree_decode.c:set_tree_single,read_from_tree,init_tree"], timeout=120, stubs=[SPECSTUB],
+         bounds="any symbol < 128, tree of 64 entries"),
+    # ---- H01.cmd
+    cmd_h("t32", ["HB=4", "OB=3", "LENMAX=32"], 32, tier="thorough", timeout=200),
+    cmd_h("t64", ["HB=4", "OB=3", "LENMAX=64"], 64, tier="thorough", timeout=200),
+    cmd_h("t32a", ["HB=4", "OB=3", "LENMAX=32", "ALLIDX"], 32, tier="thorough", timeout=200),
+    cmd_h("t64a", ["HB=4", "OB=3", "LENMAX=64", "ALLIDX"], 64, tier="thorough", timeout=200),
+    cmd_h("hb4", ["HB=4", "OB=3"], 256, tier="both", timeout=300,
+          bounds="template instantiated at HISTORY_BITS 4 (16-byte ring): window, position, code (literal / every length 3..256), offset symbol 0..4 and extra bits all symbolic; the ring wraps up to 16 times"),
+    cmd_h("hb6", ["HB=6", "OB=3"], 256, tier="both", timeout=600,
+          bounds="template instantiated at HISTORY_BITS 6 (64-byte ring): everything symbolic, lengths 3..256, offset symbols 0..6"),
+    cmd_h("lk.hb4", ["HB=4", "OB=4", "LK"], 514, tier="both", timeout=600,
+          bounds="LHARK variant of the template at HISTORY_BITS 4, NUM_CODES 289: all length classes 3..514 and distance codes 0..7 symbolic"),
+    cmd_h("lk.hb6", ["HB=6", "OB=4", "LK"], 514, tier="thorough", timeout=1800,
+          bounds="LHARK variant at HISTORY_BITS 6: all length classes 3..514, distance codes 0..11"),
+    cmd_h("lh5.real", ["REAL_LH5", "LENMAX=16"], 16, flags=["--arrays-uf-always"], tier="both", timeout=600, mem_gb=6,
+          bounds="real lib/lh5_decoder.c (16 KiB ring): arbitrary ring, symbolic position, offset symbol 0..14 with symbolic extra bits, literal or copy of length 3..16"),
+    cmd_h("lk7.real", ["REAL_LK7", "LENMAX=16"], 16, flags=["--arrays-uf-always"], tier="thorough", timeout=1800, mem_gb=6,
+          bounds="real lib/lk7_decoder.c (64 KiB ring): arbitrary ring, symbolic position, distance codes 0..31, copy length 3..16"),
+    cmd_h("lh7.real", ["REAL_LH7", "LENMAX=16"], 16, flags=["--arrays-uf-always"], tier="thorough", timeout=1800, mem_gb=6,
+          bounds="real lib/lh7_decoder.c (128 KiB ring): arbitrary ring, symbolic position, offset symbol 0..17, copy length 3..16"),
 ]
